@@ -5,6 +5,8 @@
 set -u
 P=$1; N=$2; D=$3; shift 3
 SRC=/tmp/seed/$P/out/$N
+[ -d $SRC ] || SRC=/tmp/seed/$P-out/$N
+if [ "$D" = auto ]; then D=$(head -1 $SRC/demo_test.go | sed -n 's|^// copy into: *||p' | sed 's|/$||'); [ -z "$D" ] && { echo "no copy-into comment"; exit 2; }; fi
 WT=/tmp/seedcheck-$P-$N
 export GOFLAGS=-mod=mod GOPROXY=off GOSUMDB=off GOTOOLCHAIN=local
 git -C /repo worktree add -q --detach $WT HEAD || exit 2
